@@ -7,7 +7,13 @@
 //	    and all four signatures verify over double-SHA256(wire bytes after the
 //	        signatures) under node_id_1, node_id_2, bitcoin_key_1, bitcoin_key_2
 //	    and the output the scid points at exists, is unspent and its script is the
-//	        P2WSH 2-of-2 of the two bitcoin keys
+//	        2-of-2 of the two bitcoin keys in the form the announced channel kind
+//	        uses: the simple-taproot feature bits 180/181 in `features` announce a
+//	        simple taproot channel (P2TR of the BIP 86-tweaked MuSig2 aggregate of
+//	        the two sorted keys), any other vector (empty, unknown odd or even
+//	        bits) a BOLT 3 channel (P2WSH of "2 <k_lo> <k_hi> 2 OP_CHECKMULTISIG");
+//	        for the final taproot bits 80/81, which gossip v1 does not define, either
+//	        2-of-2 form is acceptable (c20FundingForms)
 //	    and the channel is not known yet (a duplicate changes nothing)
 //	channel_update is applied  <=>  chain_hash is ours, the channel is known,
 //	    the signature verifies under the node owning the direction bit,
@@ -88,6 +94,7 @@ type c20MChan struct {
 	n1, n2, b1, b2 [33]byte
 	capSat         int64
 	op             wire.OutPoint
+	feat           []int // the feature bits of the announcement
 	extra          []byte
 	pol            [2]*c20MPol
 }
@@ -173,9 +180,9 @@ func (m *c20Model) render() []string {
 				p[i] = ch.pol[i].line
 			}
 		}
-		lines = append(lines, fmt.Sprintf("ch %d n1=%x n2=%x b1=%x b2=%x cap=%d op=%x:%d proof=%v extra=%x p1=%s p2=%s",
+		lines = append(lines, fmt.Sprintf("ch %d n1=%x n2=%x b1=%x b2=%x cap=%d op=%x:%d proof=%v feat=%v extra=%x p1=%s p2=%s",
 			ch.scid, ch.n1[:6], ch.n2[:6], ch.b1[:6], ch.b2[:6], ch.capSat, ch.op.Hash[:4], ch.op.Index, true,
-			ch.extra, p[0], p[1]))
+			ch.feat, ch.extra, p[0], p[1]))
 	}
 	for pub, n := range m.nodes {
 		if n.ts == 0 {
@@ -254,8 +261,7 @@ func (m *c20Model) zombiesConsistent(observed []uint64) string {
 	for _, s := range observed {
 		obs[s] = true
 	}
-	for _, sc := range c20UniverseScids {
-		s := sc.ToUint64()
+	for _, s := range c20ZombieScids(observed, m) {
 		_, z := m.zombies[s]
 		_, sup := m.suppressed[s]
 		switch {
@@ -268,6 +274,32 @@ func (m *c20Model) zombiesConsistent(observed []uint64) string {
 	return ""
 }
 
+// c20ZombieScids: the scids of the universe plus every scid that is in the observed
+// zombie index or in the zombie bookkeeping of one of the models, ascending.
+func c20ZombieScids(observed []uint64, models ...*c20Model) []uint64 {
+	set := map[uint64]bool{}
+	for _, sc := range c20UniverseScids {
+		set[sc.ToUint64()] = true
+	}
+	for _, s := range observed {
+		set[s] = true
+	}
+	for _, m := range models {
+		for s := range m.zombies {
+			set[s] = true
+		}
+		for s := range m.suppressed {
+			set[s] = true
+		}
+	}
+	var out []uint64
+	for s := range set {
+		out = append(out, s)
+	}
+	sort.Slice(out, func(i, j int) bool { return out[i] < out[j] })
+	return out
+}
+
 // zombieVerdict names the zombie-index clause that failed: the graph matches the
 // candidates cands of v, the zombie index matches none of them.
 func (m *c20Model) zombieVerdict(v *c20Verdict, cands []int, observed []uint64) (clause, what string) {
@@ -275,8 +307,7 @@ func (m *c20Model) zombieVerdict(v *c20Verdict, cands []int, observed []uint64) 
 	for _, s := range observed {
 		obs[s] = true
 	}
-	for _, sc := range c20UniverseScids {
-		s := sc.ToUint64()
+	for _, s := range c20ZombieScids(observed, append([]*c20Model{m}, v.After...)...) {
 		_, was := m.zombies[s]
 		all, none := true, true
 		for _, i := range cands {
@@ -437,23 +468,38 @@ func (m *c20Model) stepCA(msg *c20Msg, a *lnwire.ChannelAnnouncement1, now int64
 	}
 	// authentic from here on; now the chain
 	out, op := c20U.lookup(a.ShortChannelID, m.tip)
+	feat := c20CAFeatureBits(w)
+	forms, kind := c20FundingForms(feat, a.BitcoinKey1, a.BitcoinKey2)
 	fundingWhy := ""
 	switch {
 	case out == nil:
 		fundingWhy = "ca:no-such-output"
-	case !bytes.Equal(out.pkScript, c20P2WSH2of2(a.BitcoinKey1, a.BitcoinKey2)):
+	case !c20ScriptIn(out.pkScript, forms):
 		fundingWhy = "ca:wrong-script"
 	case out.spent:
 		fundingWhy = "ca:spent"
 	}
-	if fundingWhy != "" {
+	refused := func(why string) *c20Model {
 		n := m.clone()
 		if _, already := n.suppressed[scid]; !already {
-			n.suppressed[scid] = fundingWhy
+			n.suppressed[scid] = why
 		}
-		return n.unchanged(fundingWhy)
+		return n
 	}
-	v := &c20Verdict{Valid: true, Why: "ca:valid"}
+	if fundingWhy != "" {
+		return refused(fundingWhy + kind).unchanged(fundingWhy + kind)
+	}
+	v := &c20Verdict{Valid: true, Why: "ca:valid" + kind}
+	if len(forms) > 1 {
+		// the statement does not say which 2-of-2 form such an announcement refers
+		// to: accepting it and refusing it (as a funding-check failure) are both fine
+		v.Why = "ca:2-of-2-of-the-keys,form-undecided" + kind
+		r := refused(v.Why)
+		defer func() {
+			v.Finals = append(v.Finals, r.render())
+			v.After = append(v.After, r)
+		}()
+	}
 	if why, sup := m.suppressed[scid]; sup {
 		v.Suppressed = "scid was marked after an earlier announcement failed the funding check (" + why + ")"
 	}
@@ -462,7 +508,7 @@ func (m *c20Model) stepCA(msg *c20Msg, a *lnwire.ChannelAnnouncement1, now int64
 	}
 	n := m.clone()
 	n.chans[scid] = &c20MChan{scid: scid, n1: a.NodeID1, n2: a.NodeID2, b1: a.BitcoinKey1, b2: a.BitcoinKey2,
-		capSat: out.value, op: op, extra: a.ExtraOpaqueData}
+		capSat: out.value, op: op, feat: feat, extra: a.ExtraOpaqueData}
 	for _, id := range [][33]byte{a.NodeID1, a.NodeID2} {
 		if _, ok := n.nodes[id]; !ok {
 			n.nodes[id] = &c20MNode{}
@@ -473,6 +519,51 @@ func (m *c20Model) stepCA(msg *c20Msg, a *lnwire.ChannelAnnouncement1, now int64
 	v.Relayable = append(v.Relayable, msg.Wire)
 	n.replayHeld(held, now, v)
 	return v
+}
+
+// c20CAFeatureBits reads the feature bits of a channel_announcement from its wire
+// bytes (type, four signatures, u16 length, feature bytes).
+func c20CAFeatureBits(w []byte) []int {
+	if len(w) < c20CAOff+2 {
+		return []int{}
+	}
+	l := int(w[c20CAOff])<<8 | int(w[c20CAOff+1])
+	if len(w) < c20CAOff+2+l {
+		return []int{}
+	}
+	return c20FeatureBits(w[c20CAOff+2 : c20CAOff+2+l])
+}
+
+// c20FundingForms: the funding output scripts that count as "the 2-of-2 of the two
+// bitcoin keys" for an announcement with these feature bits, and the channel kind
+// as a suffix for outcome classes.
+func c20FundingForms(feat []int, k1, k2 [33]byte) (forms [][]byte, kind string) {
+	has := func(b int) bool {
+		for _, f := range feat {
+			if f == b {
+				return true
+			}
+		}
+		return false
+	}
+	switch {
+	case has(180) || has(181):
+		return [][]byte{c20P2TRMuSig2(k1, k2, true)}, "[taproot]"
+	case has(80) || has(81):
+		return [][]byte{c20P2WSH2of2(k1, k2), c20P2TRMuSig2(k1, k2, true)}, "[taproot-final-bits]"
+	case len(feat) > 0:
+		return [][]byte{c20P2WSH2of2(k1, k2)}, "[legacy,features]"
+	}
+	return [][]byte{c20P2WSH2of2(k1, k2)}, ""
+}
+
+func c20ScriptIn(script []byte, forms [][]byte) bool {
+	for _, f := range forms {
+		if len(f) > 0 && bytes.Equal(script, f) {
+			return true
+		}
+	}
+	return false
 }
 
 // replayHeld applies the held updates in every order and collects the distinct
